@@ -399,11 +399,15 @@ protected:
             std::visit([&](auto &x){
                using T = std::decay_t<decltype(x)>;
                if constexpr(std::is_same_v<T, promise>) {
+                   //resolve without the lock: an awaiter which is not a coroutine (callback)
+                   //runs inside of the call and may call the scheduler again
+                   lk.unlock();
                    if constexpr(have_pool) {
                        pool->resume(x());
                    } else {
                        x();
                    }
+                   lk.lock();
                } else {
                    if constexpr(have_pool) {
                        if (!pool->any_enqueued() && coro_queue::can_block()) {
